@@ -13,6 +13,11 @@ open Wpull
 
 /-! ## inversion: what a successful parse of a network URL was built from -/
 
+/-- `port or RELATIVE_SCHEME_DEFAULT_PORTS[scheme]` -/
+def effPort (dp : Nat) : Option Nat → Nat
+  | some p => if p == 0 then dp else p
+  | none => dp
+
 /-- success of `parseNet` from the success of its parts (forward direction) -/
 theorem parseNet_of_parts (c : Cfg) (url scheme rem0 : Str) (dp : Nat)
     {hn : Str} {port0 : Option Nat} {np nq nf a b : Str}
@@ -31,13 +36,11 @@ theorem parseNet_of_parts (c : Cfg) (url scheme rem0 : Str) (dp : Nat)
             username := some (percentDecode c (parseUserinfo (parseAuthority rp.authority).1).1),
             password := some (percentDecode c (parseUserinfo (parseAuthority rp.authority).1).2),
             host := some (parseAuthority rp.authority).2, hostname := some hn,
-            port := some (match port0 with
-                          | some p => if p == 0 then dp else p
-                          | none => dp),
+            port := some (effPort dp port0),
             resource := some rp.resource } := by
   unfold parseNet
   cases port0 <;>
-    simp only [hrp, hhost, hne, hpath, hquery, hfrag, hun, hpw, Bool.false_eq_true, if_false]
+    simp only [hrp, hhost, hne, hpath, hquery, hfrag, hun, hpw, Bool.false_eq_true, if_false, effPort]
 
 /-- inversion of `parseNet` -/
 theorem parseNet_inv {c : Cfg} {url scheme rem0 : Str} {dp : Nat} {i : URLInfo}
@@ -45,9 +48,7 @@ theorem parseNet_inv {c : Cfg} {url scheme rem0 : Str} {dp : Nat} {i : URLInfo}
     ∃ (host hn un pw p1 q1 path query : Str) (port0 : Option Nat) (a b : Str),
       i.scheme = some scheme ∧ i.username = some un ∧ i.password = some pw ∧
       i.host = some host ∧ i.hostname = some hn ∧
-      i.port = some (match port0 with
-                     | some p => if p == 0 then dp else p
-                     | none => dp) ∧
+      i.port = some (effPort dp port0) ∧
       i.path = some path ∧ i.query = some query ∧
       parseHost c host = .ok (hn, port0) ∧ hn.isEmpty = false ∧
       normalizePath c p1 = .ok path ∧ normalizeQuery c q1 = .ok query ∧
@@ -84,9 +85,7 @@ theorem parse_net_inv {c : Cfg} {s : Str} {i : URLInfo} {sch : Str} {dp : Nat}
     ∃ (host hn un pw p1 q1 path query : Str) (port0 : Option Nat) (a b : Str),
       i.scheme = some sch ∧ i.username = some un ∧ i.password = some pw ∧
       i.host = some host ∧ i.hostname = some hn ∧
-      i.port = some (match port0 with
-                     | some p => if p == 0 then dp else p
-                     | none => dp) ∧
+      i.port = some (effPort dp port0) ∧
       i.path = some path ∧ i.query = some query ∧
       parseHost c host = .ok (hn, port0) ∧ hn.isEmpty = false ∧
       normalizePath c p1 = .ok path ∧ normalizeQuery c q1 = .ok query ∧
@@ -737,5 +736,302 @@ theorem scheme_facts {sch : Str} {dp : Nat} (h : defaultPort? sch = some dp) :
   have hm := lookup_mem (l := schemePorts) h
   simp only [schemePorts, List.mem_cons, Prod.mk.injEq, List.not_mem_nil, or_false] at hm
   rcases hm with ⟨rfl, rfl⟩ | ⟨rfl, rfl⟩ | ⟨rfl, rfl⟩ | ⟨rfl, rfl⟩ | ⟨rfl, rfl⟩ | ⟨rfl, rfl⟩ <;> decide
+
+/-! ## the reassembled URL as a function of the attributes -/
+
+theorem isIPv6_eq {i : URLInfo} {host : Str} (hh : i.host = some host) :
+    (i.isIPv6 == some true) = startsWith host [91] := by
+  unfold URLInfo.isIPv6
+  rw [hh]
+  simp only
+  cases host with
+  | nil => simp [startsWith]
+  | cons x t => simp
+
+theorem url_shape {i : URLInfo} {sch un pw host hn path query a b : Str} {dp port : Nat}
+    (hs : i.scheme = some sch) (hdp : defaultPort? sch = some dp)
+    (hun : i.username = some un) (hpw : i.password = some pw) (hh : i.host = some host)
+    (hhn : i.hostname = some hn) (hport : i.port = some port) (hpath : i.path = some path)
+    (hq : i.query = some query)
+    (ha : normalizeUsername un = .ok a) (hb : normalizePassword pw = .ok b) :
+    i.url = .ok (sch ++ ([58, 47, 47] ++ ((a ++ ((if pw.isEmpty then [] else 58 :: b) ++
+      (if un.isEmpty && pw.isEmpty then [] else [64]))) ++
+      ((if startsWith host [91] then [91] ++ hn ++ [93] else hn) ++
+      ((if port = dp then [] else 58 :: natDec port) ++ (path ++ (if query.isEmpty then [] else 63 :: query))))))) := by
+  have hv6 := isIPv6_eq hh
+  unfold URLInfo.url
+  rw [hs, netScheme_of hdp]
+  simp only [hun, hpw, hhn, hport, hpath, hq, Option.getD_some, hv6]
+  have h1 : (if un.isEmpty = true then Except.ok [] else normalizeUsername un) = (.ok a : Except PyExc Str) := by
+    by_cases e : un.isEmpty = true
+    · have : un = [] := by simpa using e
+      subst this
+      rw [normalizeUsername_nil] at ha; cases ha; simp
+    · simp [e, ha]
+  have h2 : (if pw.isEmpty = true then Except.ok [] else normalizePassword pw) = (.ok b : Except PyExc Str) := by
+    by_cases e : pw.isEmpty = true
+    · have : pw = [] := by simpa using e
+      subst this
+      rw [normalizePassword_nil] at hb; cases hb; simp
+    · simp [e, hb]
+  rw [h1]
+  simp only
+  rw [h2]
+  simp only
+  have hp : (some dp != some port) = !(decide (port = dp)) := by
+    by_cases e : port = dp
+    · subst e; simp
+    · have : dp ≠ port := fun h => e h.symm
+      simp [e, this]
+  rw [hp]
+  by_cases e : port = dp
+  · simp [e, List.append_assoc]
+  · simp [e, List.append_assoc]
+
+/-! ## re-parsing the reassembled URL -/
+
+theorem isPySpace_false {x : Nat} (h1 : 0x20 < x) (h2 : x < 0x80) : isPySpace x = false := by
+  unfold isPySpace
+  simp only [Bool.or_eq_false_iff, Bool.and_eq_false_iff, decide_eq_false_iff_not, beq_eq_false_iff_ne, ne_eq]
+  omega
+
+theorem normalizeFragment_nil (c' : Cfg) (hs' : SegSafe c'.encode) : normalizeFragment c' [] = .ok [] := by
+  unfold normalizeFragment percentEncode
+  rw [segSafe_ascii hs' (s := []) (fun c hc => by cases hc)]
+  rfl
+
+theorem startsWith_append_ne {H : List Nat} (P : List Nat) (h : H ≠ []) :
+    startsWith (H ++ P) [91] = startsWith H [91] := by
+  cases H with
+  | nil => exact absurd rfl h
+  | cons x t => simp [startsWith]
+
+/-- the scheme decisions on `scheme:rest` for a network scheme -/
+theorem schemeSplit_normal (c' : Cfg) {sch rest : Str} {dp : Nat} (hdp : defaultPort? sch = some dp) :
+    schemeSplit c' (sch ++ 58 :: rest) = .ok (some sch, rest) := by
+  obtain ⟨hsne, hs58, hs46, hsloc, hsasc, hslow, _, _, _⟩ := scheme_facts hdp
+  have hemp : sch.isEmpty = false := by
+    cases sch with
+    | nil => exact absurd rfl hsne
+    | cons x t => rfl
+  have hlow : pyLower c' sch = sch := by unfold pyLower; rw [hsasc]; simpa using hslow
+  unfold schemeSplit
+  simp only [port_partition1_append 58 sch rest hs58, hemp, hlow, Bool.false_eq_true, if_false,
+    Bool.not_true, Bool.false_and, Option.getD_some, hs46, Bool.and_false, hsloc, Bool.or_self]
+
+/-- what is assumed about the parameters when the normal form is parsed again.  `c` is the
+configuration of the first parse (any document encoding), `c'` the one of the second. -/
+structure ReparseParams (c c' : Cfg) : Prop where
+  /-- the document codec works character by character, is the identity on ASCII and gives no
+  `.` `/` bytes for other characters (utf-8, latin-1, ascii: proved; other codecs: monitored) -/
+  enc_first : SegSafe c.encode
+  /-- … and produces the byte 0x20 only for the space character -/
+  enc_space : SpaceSafe c.encode
+  /-- the codec of the second parse is the identity on ASCII text -/
+  enc_second : SegSafe c'.encode
+  /-- IPv6: the compressed form is hex digits / `:` / `.` and re-parses to itself -/
+  v6 : V6Params c c'
+  /-- `unquote(percent_encode(x)) = x` for user name and password -/
+  unquote_user : ∀ un a, normalizeUsername un = .ok a → percentDecode c' a = un
+  unquote_pass : ∀ pw b, normalizePassword pw = .ok b → percentDecode c' b = pw
+
+/-- the main composition: the normal form `n` of a network URL parses again, to a result with
+the same scheme, host name, port, path and query, whose normal form is `n`. -/
+theorem norm_main (c c' : Cfg) (hp : ReparseParams c c') (s : Str) (i : URLInfo) (sch : Str) (dp : Nat)
+    (n : Str) (hparse : parse c s = .ok i) (hnet : netScheme? i.scheme = some (sch, dp))
+    (hurl : i.url = .ok n)
+    (hprint : ∀ hn, i.hostname = some hn → ∀ x ∈ hn, 0x20 < x) :
+    ∃ j, parse c' n = .ok j ∧ j.url = .ok n ∧ j.scheme = i.scheme ∧ j.hostname = i.hostname ∧
+      j.port = i.port ∧ j.path = i.path ∧ j.query = i.query := by
+  obtain ⟨host, hn, un, pw, p1, q1, path, query, port0, a, b, hs, hun, hpw, hhost, hhn, hport, hpath,
+    hquery, hph, hne, hnp, hnq, ha, hb⟩ := parse_net_inv hparse hnet
+  have hnet' : netScheme? (some sch) = some (sch, dp) := by rw [hs] at hnet; exact hnet
+  have hdp := (netScheme_some hnet').2
+  obtain ⟨hsne, hs58, hs46, hsloc, hsasc, hslow, hsch, hdp0, hdplt⟩ := scheme_facts hdp
+  obtain ⟨arg, hharg, hv6eq, hportlt⟩ := parseHost_inv hph
+  have hhne : hn ≠ [] := by intro e; subst e; simp at hne
+  -- the effective port
+  obtain ⟨port, hpv, hplt, hp0⟩ : ∃ port, effPort dp port0 = port ∧ port < 65536 ∧ port ≠ 0 := by
+    cases port0 with
+    | none => exact ⟨dp, rfl, hdplt, by omega⟩
+    | some p =>
+      by_cases e : (p == 0) = true
+      · exact ⟨dp, by simp [effPort, e], hdplt, by omega⟩
+      · refine ⟨p, by simp [effPort, e], hportlt p rfl, ?_⟩
+        intro h0; subst h0; simp at e
+  rw [hpv] at hport
+  -- components
+  obtain ⟨T, hT, hp63, hp35, hpchars, hpre⟩ := path_reparse c c' hp.enc_first hp.enc_second hnp
+  obtain ⟨hq35, hqchars, hqre⟩ := query_reparse c c' hp.enc_first hp.enc_space hp.enc_second hnq
+  have hhp := hostpart_reparse c c' hp.v6 hharg
+  simp only at hhp
+  obtain ⟨hH0, hHp, hHv6, ⟨hH47, hH63, hH35, hH64⟩, hHchars, _⟩ := hhp
+  have huo := username_out ha
+  have hpo := password_out hb
+  have hhnprint := hprint hn hhn
+  -- names for the pieces
+  generalize hHdef : (if startsWith arg [91] = true then [91] ++ hn ++ [93] else hn) = H at *
+  let X : Str := if pw.isEmpty then [] else 58 :: b
+  let Y : Str := if un.isEmpty && pw.isEmpty then [] else [64]
+  let P : Str := if port = dp then [] else 58 :: natDec port
+  let qs : Str := if query.isEmpty then [] else 63 :: query
+  have hX : ∀ x ∈ X, (0x20 < x ∧ x < 0x80) ∧ x ≠ 47 ∧ x ≠ 63 ∧ x ≠ 35 ∧ x ≠ 64 := by
+    intro x hx
+    simp only [X] at hx
+    split at hx
+    · cases hx
+    · simp only [List.mem_cons] at hx
+      rcases hx with rfl | hx
+      · omega
+      · have := hpo.1 x hx
+        exact ⟨by omega, fun e => hpo.2.1 (e ▸ hx), fun e => hpo.2.2.1 (e ▸ hx),
+          fun e => hpo.2.2.2.1 (e ▸ hx), fun e => hpo.2.2.2.2 (e ▸ hx)⟩
+  have hP : ∀ x ∈ P, (0x20 < x ∧ x < 0x80) ∧ x ≠ 47 ∧ x ≠ 63 ∧ x ≠ 35 ∧ x ≠ 64 := by
+    intro x hx
+    simp only [P] at hx
+    split at hx
+    · cases hx
+    · simp only [List.mem_cons] at hx
+      rcases hx with rfl | hx
+      · omega
+      · have := (natDec_digits port).2 x hx; omega
+  -- the shape of n
+  have hshape := url_shape hs hdp hun hpw hhost hhn hport hpath hquery ha hb
+  rw [hurl, hv6eq, hHdef] at hshape
+  have hn_eq : n = sch ++ 58 :: (47 :: 47 :: ((a ++ (X ++ Y)) ++ (H ++ (P ++ (path ++ qs))))) := by
+    have := Except.ok.inj hshape
+    rw [this]; rfl
+  -- authority and the text after the `//`
+  have hA47 : 47 ∉ (a ++ (X ++ Y)) ++ (H ++ P) ∧ 63 ∉ (a ++ (X ++ Y)) ++ (H ++ P) ∧
+      35 ∉ (a ++ (X ++ Y)) ++ (H ++ P) := by
+    have hY : ∀ x ∈ Y, x = 64 := by
+      intro x hx; simp only [Y] at hx; split at hx
+      · cases hx
+      · simpa using hx
+    refine ⟨?_, ?_, ?_⟩ <;>
+    · intro hm
+      simp only [List.mem_append] at hm
+      rcases hm with (h | h | h) | h | h
+      · first | exact huo.2.1 h | exact huo.2.2.1 h | exact huo.2.2.2.1 h
+      · have := (hX _ h).2; omega
+      · have := hY _ h; omega
+      · first | exact hH47 h | exact hH63 h | exact hH35 h
+      · have := (hP _ h).2; omega
+  have h64R : 64 ∉ H ++ P := by
+    intro hm
+    rw [List.mem_append] at hm
+    rcases hm with h | h
+    · exact hH64 h
+    · have := (hP _ h).2; omega
+  obtain ⟨res, hsplit⟩ : ∃ res, splitRem ((a ++ (X ++ Y)) ++ (H ++ (P ++ (path ++ qs)))) =
+      { authority := (a ++ (X ++ Y)) ++ (H ++ P), resource := res,
+        path := if T.isEmpty then [47] else T, query := query, fragment := [] } := by
+    have hT63 : 63 ∉ T ∧ 35 ∉ T := by
+      rw [hT] at hp63 hp35
+      exact ⟨fun h => hp63 (List.mem_cons_of_mem _ h), fun h => hp35 (List.mem_cons_of_mem _ h)⟩
+    by_cases hq : query.isEmpty = true
+    · have hq' : query = [] := by simpa using hq
+      refine ⟨47 :: T, ?_⟩
+      have : (a ++ (X ++ Y)) ++ (H ++ (P ++ (path ++ qs))) = ((a ++ (X ++ Y)) ++ (H ++ P)) ++ 47 :: T := by
+        simp only [qs, hq, if_true, hT, List.append_nil, List.append_assoc]
+      rw [this, splitRem_noquery _ T hA47 hT63, hq']
+    · refine ⟨47 :: (T ++ 63 :: query), ?_⟩
+      have : (a ++ (X ++ Y)) ++ (H ++ (P ++ (path ++ qs))) =
+          ((a ++ (X ++ Y)) ++ (H ++ P)) ++ 47 :: (T ++ 63 :: query) := by
+        simp only [qs, hq, Bool.false_eq_true, if_false, hT, List.append_assoc, List.cons_append]
+      rw [this, splitRem_query _ T query hA47 hT63 hq35]
+  -- user info
+  have hui := userinfo_reparse c' ha hb (hp.unquote_user un a ha) (hp.unquote_pass pw b hb) (H ++ P) h64R
+  simp only at hui
+  have hauth : a ++ (if pw.isEmpty then [] else 58 :: b) ++ (if un.isEmpty && pw.isEmpty then [] else [64]) ++ (H ++ P)
+      = (a ++ (X ++ Y)) ++ (H ++ P) := by
+    simp only [X, Y, List.append_assoc]
+  rw [hauth] at hui
+  obtain ⟨hui1, hui2, hui3⟩ := hui
+  -- host
+  have hhostre : parseHost c' (H ++ P) = .ok (hn, if port = dp then none else some port) := by
+    by_cases e : port = dp
+    · simp only [P, e, if_true, List.append_nil]; exact hH0
+    · simp only [P, e, if_false]; exact hHp port hplt
+  -- assemble the second parse
+  have hrem : (if startsWith (47 :: 47 :: ((a ++ (X ++ Y)) ++ (H ++ (P ++ (path ++ qs))))) [47, 47]
+      then (47 :: 47 :: ((a ++ (X ++ Y)) ++ (H ++ (P ++ (path ++ qs))))).drop 2
+      else (47 :: 47 :: ((a ++ (X ++ Y)) ++ (H ++ (P ++ (path ++ qs)))))) =
+      (a ++ (X ++ Y)) ++ (H ++ (P ++ (path ++ qs))) := by
+    simp [startsWith]
+  have hpn := parseNet_of_parts c' n sch (47 :: 47 :: ((a ++ (X ++ Y)) ++ (H ++ (P ++ (path ++ qs))))) dp
+    { authority := (a ++ (X ++ Y)) ++ (H ++ P), resource := res,
+      path := if T.isEmpty then [47] else T, query := query, fragment := [] }
+    (by rw [hrem]; exact hsplit)
+    (by rw [hui1]; exact hhostre) (by simpa using hne)
+    hpre hqre (normalizeFragment_nil c' hp.enc_second)
+    (by rw [hui2]; exact ha) (by rw [hui3]; exact hb)
+  simp only [hui1, hui2, hui3] at hpn
+  -- characters of n: strip and the C0 test do nothing
+  have hnchars : ∀ x ∈ n, 0x20 < x ∧ x < 0x80 := by
+    intro x hx
+    rw [hn_eq] at hx
+    have hY : ∀ x ∈ Y, x = 64 := by
+      intro x hx; simp only [Y] at hx; split at hx
+      · cases hx
+      · simpa using hx
+    simp only [List.mem_append, List.mem_cons] at hx
+    rcases hx with h | h | h | h | (h | h | h) | h | h | h | h
+    · have := hsch x h; omega
+    · omega
+    · omega
+    · omega
+    · have := huo.1 x h; omega
+    · exact (hX x h).1
+    · have := hY x h; omega
+    · have := hHchars x h; exact ⟨this.2 hhnprint, this.1⟩
+    · exact (hP x h).1
+    · have := hpchars x h; omega
+    · simp only [qs] at h
+      split at h
+      · cases h
+      · simp only [List.mem_cons] at h
+        rcases h with rfl | h
+        · omega
+        · have := hqchars x h; omega
+  have hstrip : strip n = n := strip_id (fun x hx => isPySpace_false (hnchars x hx).1 (hnchars x hx).2)
+  have hc0 : (n.any (· ≤ 0x1f)) = false := by
+    cases hc : n.any (· ≤ 0x1f) with
+    | false => rfl
+    | true =>
+      obtain ⟨x, hx, hle⟩ := List.any_eq_true.mp hc
+      have := (hnchars x hx).1
+      simp only [decide_eq_true_eq] at hle
+      omega
+  have hparse2 : parse c' n = parseNet c' n sch (47 :: 47 :: ((a ++ (X ++ Y)) ++ (H ++ (P ++ (path ++ qs))))) dp := by
+    unfold parse
+    simp only [hstrip, hc0, Bool.false_eq_true, if_false]
+    conv => lhs; rw [hn_eq, schemeSplit_normal c' hdp]
+    simp only [netScheme_of hdp]
+    rw [← hn_eq]
+  have hportj : effPort dp (if port = dp then none else some port) = port := by
+    by_cases e : port = dp
+    · simp [e, effPort]
+    · have : (port == 0) = false := by simpa using hp0
+      simp [e, this, effPort]
+  rw [hportj] at hpn
+  rw [hpn] at hparse2
+  refine ⟨_, hparse2, ?_, ?_⟩
+  · -- its normal form
+    refine (url_shape (sch := sch) (un := un) (pw := pw) (host := H ++ P) (hn := hn)
+      (path := path) (query := query) (a := a) (b := b) (dp := dp) (port := port)
+      rfl hdp rfl rfl rfl rfl rfl rfl rfl ha hb).trans ?_
+    rw [hn_eq]
+    have hv : startsWith (H ++ P) [91] = startsWith arg [91] := by
+      have hHne : H ≠ [] := by
+        rw [← hHdef]; split
+        · simp
+        · exact hhne
+      rw [startsWith_append_ne P hHne]
+      exact hHv6 hhne
+    rw [hv, hHdef]
+    rfl
+  · simp only [hs, hhn, hport, hpath, hquery]
+    exact ⟨trivial, trivial, trivial, trivial, trivial⟩
 
 end Wpull.Url
